@@ -59,7 +59,7 @@ func Run(d *fw.Driver, res *fw.Result, seed int64, thorough bool) error {
 	}
 	for rep := 0; rep < reps; rep++ {
 		for _, transport := range []string{"ws", "http"} {
-			kinds := []int{0, 1, 2, 3, 4, 5, 6, 7, 8, 9, 10, 11, 12, 13}
+			kinds := []int{0, 1, 2, 3, 4, 5, 6, 7, 8, 9, 10, 11, 12, 13, 14}
 			if transport == "ws" {
 				kinds = append(kinds, 102, 100, 106) // the handler panics after its caller cancelled
 			}
